@@ -37,13 +37,20 @@ def sp_term(sp):
     import odl
     if isinstance(sp, odl.set.sets.Field):
         return 'SF'
+    if isinstance(sp, odl.ProductSpace):
+        if not all(isinstance(p, odl.space.base_tensors.TensorSpace) for p in sp):
+            raise Unsupported('nested product space')
+        return '(SP [%s]%%nat)' % '; '.join('%d' % p.size for p in sp)
     return '(SV %d)' % sp.size
 
 
 def vals(el):
-    """element (or scalar) -> list of floats"""
+    """element (or scalar) -> flat list of floats (product-space elements are concatenated)"""
+    import odl
     if isinstance(el, (int, float, np.floating, np.integer)):
         return [float(el)]
+    if isinstance(getattr(el, 'space', None), odl.ProductSpace):
+        return [v for part in el for v in vals(part)]
     return [float(v) for v in np.asarray(el).ravel()]
 
 
@@ -112,6 +119,13 @@ def ser(op):
         return '(ORVec %s %s)' % (ser(op.operator), C.qs(vals(op.vector)))
     if t is O.FunctionalLeftVectorMult:
         return '(OFLVec %s %s)' % (ser(op.functional), C.qs(vals(op.vector)))
+    PS = odl.operator.pspace_ops
+    if t is PS.BroadcastOperator:
+        return '(OBroadcast [%s])' % '; '.join(ser(o) for o in op.operators)
+    if t is PS.ReductionOperator:
+        return '(OReduction [%s])' % '; '.join(ser(o) for o in op.operators)
+    if t is PS.DiagonalOperator:
+        return '(ODiagonal [%s])' % '; '.join(ser(o) for o in op.operators)
     if t in (D.ScalingOperator, D.IdentityOperator):
         return '(OLeaf (LScale %s %s))' % (sp_term(op.domain), C.q(float(op.scalar)))
     if t is D.MultiplyOperator:
@@ -157,7 +171,8 @@ def rvec(rng, n, zero_ok=True):
 
 class Gen(object):
     """random well-typed trees built from the real classes (constructors, not overloads: the derivative
-    rules live on the classes; the overloads used inside the rules are what the model's mk_* mirror)"""
+    rules live on the classes; the overloads used inside the rules are what the model's mk_* mirror).
+    Spaces: the field, rn(1..3) and product spaces of 1..3 such rn's."""
 
     def __init__(self, rng):
         import odl
@@ -165,25 +180,61 @@ class Gen(object):
         self.odl = odl
         self.F = odl.RealNumbers()
         self.V = {n: odl.rn(n) for n in (1, 2, 3)}
+        self._P = {}
 
-    def space(self, allow_field=True):
-        r = self.rng.random()
-        if allow_field and r < 0.2:
-            return self.F
+    def vspace(self):
         return self.V[self.rng.choice([1, 2, 2, 3, 3])]
+
+    def pspace(self, k=None):
+        k = k or self.rng.choice([1, 2, 2, 3])
+        key = tuple(self.rng.choice([1, 2, 3]) for _ in range(k))
+        if key not in self._P:
+            self._P[key] = self.odl.ProductSpace(*[self.V[n] for n in key])
+        return self._P[key]
+
+    def space(self, allow_field=True, allow_prod=True):
+        r = self.rng.random()
+        if allow_field and r < 0.17:
+            return self.F
+        if allow_prod and r > 0.8:
+            return self.pspace()
+        return self.vspace()
 
     def is_f(self, s):
         return s is self.F
 
+    def is_p(self, s):
+        return isinstance(s, self.odl.ProductSpace)
+
     def el(self, s, zero_ok=True):
         if self.is_f(s):
             return self.rng.choice(ENT)
+        if self.is_p(s):
+            return s.element([self.el(p, zero_ok) for p in s])
         return s.element(rvec(self.rng, s.size, zero_ok))
 
     def leaf(self, dom, ran):
         odl, rng = self.odl, self.rng
         D = odl.operator.default_ops
+        PS = odl.operator.pspace_ops
+        O = odl.operator.operator
         Cubic, _ = user_ops()
+        # product spaces: the smallest block operator that fits
+        if self.is_p(dom) or self.is_p(ran):
+            if self.is_p(dom) and self.is_p(ran):
+                if len(dom) == len(ran):
+                    return PS.DiagonalOperator(*[self.leaf(a, b) for a, b in zip(dom, ran)])
+                mid = self.vspace()
+                return O.OperatorComp(self.leaf(mid, ran), self.leaf(dom, mid))
+            if self.is_p(ran):
+                if self.is_f(dom):
+                    mid = self.vspace()
+                    return O.OperatorComp(self.leaf(mid, ran), self.leaf(dom, mid))
+                return PS.BroadcastOperator(*[self.leaf(dom, b) for b in ran])
+            if self.is_f(ran):
+                mid = self.vspace()
+                return O.OperatorComp(self.leaf(mid, ran), self.leaf(dom, mid))
+            return PS.ReductionOperator(*[self.leaf(a, ran) for a in dom])
         if self.is_f(dom) and self.is_f(ran):
             k = rng.choice(['scale', 'pow', 'mul', 'zero', 'ident'])
             if k == 'scale':
@@ -197,7 +248,7 @@ class Gen(object):
             return D.ZeroOperator(dom)
         if self.is_f(dom):
             # field -> rn: vector times a scalar-valued operator
-            return odl.operator.operator.FunctionalLeftVectorMult(self.leaf(dom, dom), self.el(ran))
+            return O.FunctionalLeftVectorMult(self.leaf(dom, dom), self.el(ran))
         if self.is_f(ran):
             return D.InnerProductOperator(self.el(dom))
         if dom.size != ran.size:
@@ -209,7 +260,7 @@ class Gen(object):
                 return D.ZeroOperator(dom, ran)
             return D.ConstantOperator(self.el(ran), domain=dom, range=ran)
         k = rng.choice(['scale', 'ident', 'mul', 'mat', 'zero', 'const', 'const0', 'pow', 'pow', 'square', 'square',
-                        'recip', 'neg', 'cubic', 'cubic'])
+                        'recip', 'neg', 'cubic', 'cubic', 'abs', 'sign'])
         if k == 'scale':
             return D.ScalingOperator(dom, rng.choice(SCAL))
         if k == 'ident':
@@ -232,18 +283,32 @@ class Gen(object):
             return odl.ufunc_ops.reciprocal(dom)
         if k == 'neg':
             return odl.ufunc_ops.negative(dom)
+        if k in ('abs', 'sign'):
+            # ufuncs without a derivative: derivative(x) raises (rarely chosen so most trees are differentiable)
+            if rng.random() < 0.25:
+                return getattr(odl.ufunc_ops, 'absolute' if k == 'abs' else 'sign')(dom)
+            return odl.ufunc_ops.square(dom)
         return Cubic(dom)
 
     def tree(self, dom, ran, depth):
         rng = self.rng
         O = self.odl.operator.operator
+        PS = self.odl.operator.pspace_ops
         if depth <= 0 or rng.random() < 0.12:
             return self.leaf(dom, ran)
         kinds = ['sum', 'comp', 'comp', 'pprod', 'lscal', 'rscal']
         if not self.is_f(ran):
-            kinds += ['vecsum', 'lvec', 'flvec']
+            kinds += ['vecsum', 'lvec']
+        if not self.is_f(ran) and not self.is_p(ran):
+            kinds += ['flvec']
         if not self.is_f(dom):
             kinds += ['rvec']
+        if self.is_p(ran) and not self.is_f(dom) and not self.is_p(dom):
+            kinds += ['broadcast'] * 3
+        if self.is_p(dom) and not self.is_f(ran) and not self.is_p(ran):
+            kinds += ['reduction'] * 3
+        if self.is_p(dom) and self.is_p(ran) and len(dom) == len(ran):
+            kinds += ['diagonal'] * 3
         k = rng.choice(kinds)
         d = depth - 1
         if k == 'sum':
@@ -263,6 +328,12 @@ class Gen(object):
             return O.OperatorLeftVectorMult(self.tree(dom, ran, d), self.el(ran))
         if k == 'rvec':
             return O.OperatorRightVectorMult(self.tree(dom, ran, d), self.el(dom))
+        if k == 'broadcast':
+            return PS.BroadcastOperator(*[self.tree(dom, b, d) for b in ran])
+        if k == 'reduction':
+            return PS.ReductionOperator(*[self.tree(a, ran, d) for a in dom])
+        if k == 'diagonal':
+            return PS.DiagonalOperator(*[self.tree(a, b, d) for a, b in zip(dom, ran)])
         return O.FunctionalLeftVectorMult(self.tree(dom, self.F, d), self.el(ran))
 
 
